@@ -280,7 +280,18 @@ type c13R struct {
 	Pieces   []int        `json:"pieces"`
 	At       int          `json:"at"` // fault offset; -1 = enumerate
 	WithData bool         `json:"withData"`
-	Once     bool         `json:"once"` // the source fails one Read and then recovers
+	Once     bool         `json:"once"`    // the source fails one Read and then recovers
+	ErrKind  string       `json:"errKind"` // "" injected sentinel | unexpected-eof | closed-pipe
+}
+
+func c13Err(kind string) error {
+	switch kind {
+	case "unexpected-eof":
+		return io.ErrUnexpectedEOF // what net/http, gzip, tar report for truncated input
+	case "closed-pipe":
+		return io.ErrClosedPipe
+	}
+	return nil
 }
 
 func c13ReadFile(c c13R) ([]byte, []byte, *refage.File) {
@@ -296,7 +307,7 @@ func c13ReadFile(c c13R) ([]byte, []byte, *refage.File) {
 
 func c13CheckOneRead(c c13R, file, plain []byte, st *stats.Run, phase string) error {
 	p := hx.ThePool()
-	fr := &hx.FaultReader{Data: file, At: c.At, WithData: c.WithData, Pieces: c.Pieces, Once: c.Once}
+	fr := &hx.FaultReader{Data: file, At: c.At, WithData: c.WithData, Pieces: c.Pieces, Once: c.Once, Err: c13Err(c.ErrKind)}
 	if c.Once {
 		return c13CheckOnceRead(c, fr, file, plain, st, phase)
 	}
@@ -318,7 +329,7 @@ func c13CheckOneRead(c c13R, file, plain []byte, st *stats.Run, phase string) er
 	} else if r != nil {
 		return pbt.Failf("C13/reader-with-error", "Decrypt returned a reader together with an error")
 	}
-	wrapped := errors.Is(err, hx.ErrInjected)
+	wrapped := errors.Is(err, hx.ErrInjected) || (c.ErrKind != "" && errors.Is(err, c13Err(c.ErrKind)))
 	st.Case(fr.Hit, stats.HashJSON(c), "r:phase="+phase, fmt.Sprintf("r:withData=%v", c.WithData), fmt.Sprintf("r:armor=%v", c.Armor), fmt.Sprintf("r:sentinel-visible=%v", wrapped), fmt.Sprintf("r:fault-hit=%v", fr.Hit))
 	if !fr.Hit {
 		// the fault lies beyond everything the library reads: a fault-free run
@@ -403,6 +414,13 @@ func c13CheckOnceRead(c c13R, fr *hx.FaultReader, file, plain []byte, st *stats.
 
 // readAllPlanRaw is readAllPlan without normalising io.EOF.
 func readAllPlanRaw(r io.Reader, plan []int) ([]byte, error) {
+	if len(plan) > 1 && plan[len(plan)-1] == -1 {
+		b, err := readAllPlan(r, plan)
+		if err == nil {
+			err = io.EOF
+		}
+		return b, err
+	}
 	if len(plan) == 1 && plan[0] == -1 {
 		var buf bytes.Buffer
 		_, err := io.Copy(&buf, r)
@@ -476,9 +494,16 @@ func c13CheckRead(c c13R, s *pbt.Session) error {
 		return "chunk"
 	}
 	for _, a := range ats {
-		for _, mode := range []int{0, 1, 2} {
+		for _, mode := range []int{0, 1, 2, 3, 4} {
 			cc := c
 			cc.At, cc.WithData, cc.Once = a, mode == 1, mode == 2
+			if mode >= 3 {
+				// other error values a real source may fail with; near the end only
+				if a < len(file)-40 {
+					continue
+				}
+				cc.ErrKind = []string{"unexpected-eof", "closed-pipe"}[mode-3]
+			}
 			if err := c13CheckOneRead(cc, file, plain, s.St, phase(a)); err != nil {
 				s.Report("read-faults", cc, err)
 				return nil
@@ -575,6 +600,13 @@ func TestC13(t *testing.T) {
 					n++
 				}
 			}
+		}
+		big := []hx.RecSpec{{Kind: "rsa", Idx: 0}, {Kind: "stub", Stub: &hx.StubSpec{Stanzas: []refage.Stanza{{Type: "big", Args: []string{"a"}, Body: hx.PRG(1, 200)}}}}, {Kind: "x25519", Idx: 1}}
+		for _, kg := range []bool{false, true} {
+			if s.Mine(n) {
+				yield(c13W{PlainLen: 10, Recs: big, KeepGoing: kg, Call: -1, Byte: -1, Enumerate: true})
+			}
+			n++
 		}
 		s.St.Exhaust("write faults: every write call x 4 fault shapes and every structural byte offset x 3 shapes, for 8 lengths x armor x caller policy", int64(n))
 	}, wr)
